@@ -59,7 +59,7 @@ public:
         void push(expression_t e) { data.push_back(e); }
         void pop() { data.pop_back(); }
         void pop(uint32_t n);
-        uint32_t size() { return data.size(); }
+        uint32_t size() const { return data.size(); }
     };
 
     class TypeFragments
@@ -157,6 +157,12 @@ public:
     {
         while (frames.size() > depth)
             frames.pop();
+    }
+    size_t operand_depth() const override { return fragments.size(); }
+    void restore_operands(size_t depth) override
+    {
+        while (fragments.size() > depth)
+            fragments.pop();
     }
     void expr_true() override;
     void expr_false() override;
